@@ -110,15 +110,15 @@ def make_scenario(streams, quarantine=()):
     direction = 'fwd' if r.random() < 0.62 else 'bwd'
     klass = 'ok'
     x = r.random()
-    if x < 0.04:
+    if x < 0.02:
         klass = 'never_available'
-    elif x < 0.09:
+    elif x < 0.07:
         klass = 'hier_cycle'
-    elif x < 0.12:
+    elif x < 0.10:
         klass = 'ext_nodate'
-    elif x < 0.16 and direction == 'fwd':
+    elif x < 0.14 and direction == 'fwd':
         klass = 'future_end'
-    elif x < 0.19:
+    elif x < 0.155:
         klass = 'runs_out'      # a calendar whose validity ends (forward) / begins (backward) in the middle of the work
     base_day = DT(2024, 1, 1) + _dt.timedelta(days=r.randint(0, 500))
     P = base_day if r.random() < 0.5 else base_day + _dt.timedelta(hours=r.randint(0, 23), minutes=r.choice([0, 0, 30, 17]))
